@@ -203,7 +203,7 @@ def gen_case(rng, direction, n, cid, opts=None):
             tasks[s - 1]["pre"].append(p)
     # external predecessors (forward: their dates bound the start)
     ext = []
-    if rng.random() < 0.12:
+    if rng.random() < 0.18:
         e_end = pstart + rng.choice([-2 * DAY, DAY + 300, 3 * DAY])
         if rng.random() < 0.25:
             ext.append({"start": MISSING if rng.random() < 0.5 else e_end - DAY, "end": MISSING})
@@ -213,7 +213,7 @@ def gen_case(rng, direction, n, cid, opts=None):
         tasks[holder - 1]["pre"].append(n + 1)
         ext[0]["inwbs"] = rng.random() < 0.5
         ext[0]["id"] = rng.choice(ids) if rng.random() < 0.4 else 9001      # may collide with a member's id
-        if ext[0]["id"] != 9001 and rng.random() < 0.6:
+        if ext[0]["id"] != 9001 and rng.random() < 0.8:
             # ... and the member with that id is a prerequisite of the same task, listed after the outside one
             twin = ids.index(ext[0]["id"]) + 1
             if legal_link(tasks, holder, twin) and twin not in tasks[holder - 1]["pre"]:
@@ -246,6 +246,8 @@ def gen_case(rng, direction, n, cid, opts=None):
                     c = [x for x in pool if x[0] == "tod-end"][0]
                 elif rng.random() < 0.04:
                     c = [x for x in pool if x[0] == "div0"][0]
+                elif rng.random() < 0.05:
+                    c = [x for x in pool if x[0] == "uneven"][0]
                 resources.append({"name": nm, "expr": c[1], "supplied": True, "ample": c[2], "never": c[3],
                                   "calname": c[0]})
             else:
@@ -326,7 +328,7 @@ def gen_case(rng, direction, n, cid, opts=None):
          "noise": False, "tod": any(r["calname"] in ("tod-end", "div0") for r in resources)}
     for t in tasks:
         t["noise"] = 0
-    if rng.random() < 0.06:
+    if rng.random() < 0.08:
         # float residues: remaining work of 5.5e-17, or an estimate a hair below / above a quarter unit.  The model
         # works with exact rationals and cannot see them: such inputs are judged for C14, C06 and the start-day
         # clause of C04 only (flag `noise`)
